@@ -24,8 +24,8 @@ Theorem c11_tables :
   required_names value_registry_EC = ["crv"; "x"; "y"]%string /\
   required_names value_registry_OKP = ["crv"; "x"]%string /\
   member_kinds jwk_parameter_registry =
-    [("kty", VStr); ("use", VChoices ["sig"; "enc"]);
-     ("key_ops", VChoices ["sign"; "verify"; "encrypt"; "decrypt"; "wrapKey"; "unwrapKey"; "deriveKey"; "deriveBits"]);
+    [("kty", VStr); ("use", VChoiceStr ["sig"; "enc"]);
+     ("key_ops", VChoiceList ["sign"; "verify"; "encrypt"; "decrypt"; "wrapKey"; "unwrapKey"; "deriveKey"; "deriveBits"]);
      ("alg", VStr); ("kid", VStr); ("x5u", VUrl); ("x5c", VListStr); ("x5t", VStr); ("x5t#S256", VStr)]%string /\
   member_kinds value_registry_oct = [("k", VStr)]%string /\
   member_kinds value_registry_RSA =
@@ -269,11 +269,20 @@ Example c11_old_witnesses_refused :
   (exists k, import_key O_yes KOKP (dset ex_okp_bad_x (K "x") (PStr (asc "nWGxne_9WmC6hEr0kuwsxERJxWl7MmkZcDusAxyuf2A"))) [] = Ok k).
 Proof. exact old_witnesses_refused. Qed.
 
-(* deviation recorded for classification: in_choices accepts "key_ops" given as
-   one JSON string and "use" given as a JSON array (c11_validator_iff, VChoices) *)
-Example c11_choices_retype_deviation :
-  (exists k, import_key O_yes KOct (ex_oct [(K "key_ops", PStr (asc "sign"))]) [] = Ok k) /\
-  (exists k, import_key O_yes KOct (ex_oct [(K "use", PList [PStr (asc "sig")])]) [] = Ok k) /\
+Theorem c11_use_key_ops_typed : forall O kt d ps k,
+  import_key O kt d ps = Ok k ->
+  (forall u, dget d (K "use") = Some u -> choice_str ["sig"; "enc"]%string u) /\
+  (forall o, dget d (K "key_ops") = Some o ->
+     exists l, o = PList l /\ Forall (choice_str key_op_names) l).
+Proof. exact use_key_ops_typed. Qed.
+
+(* "key_ops" must be an array of operation names and "use" one string (they
+   were accepted in the other shape before /repo 7fefb53; c11_validator_iff with
+   VChoiceStr / VChoiceList is the general statement) *)
+Example c11_choices_retype_refused :
+  import_key O_yes KOct (ex_oct [(K "key_ops", PStr (asc "sign"))]) [] = Err EValue /\
+  import_key O_yes KOct (ex_oct [(K "use", PList [PStr (asc "sig")])]) [] = Err EValue /\
+  (exists k, import_key O_yes KOct (ex_oct [(K "use", PStr (asc "sig")); (K "key_ops", PList [PStr (asc "sign")])]) [] = Ok k) /\
   import_key O_yes KOct (ex_oct [(K "use", PStr (asc "sig")); (K "key_ops", PStr (asc "sign"))]) [] = Err EValue /\
   import_key O_yes KOct (ex_oct [(K "use", PList [PStr (asc "sig")]); (K "key_ops", PList [PStr (asc "sign")])]) [] = Err EValue.
 Proof. exact choices_retype_witness. Qed.
@@ -301,3 +310,4 @@ Print Assumptions c11_values_decode.
 Print Assumptions c11_crt_all_or_none.
 Print Assumptions c11_rsa_private_member_needs_d.
 Print Assumptions c11_okp_x_checked.
+Print Assumptions c11_use_key_ops_typed.
